@@ -13,7 +13,7 @@ def check(tier, seed):
     n = 200 if tier == 'thorough' else 8
     lines, meta = [], []
     for s in fam.SETS:
-        for i, xi in enumerate(fam.boundary_seeds(s, 2) + fam.seeds(rng, n)):
+        for i, xi in enumerate(fam.boundary_seeds(s, 2) + fam.zero_sum_seeds(s) + fam.seeds(rng, n)):
             for src in ('gen', 'rt'):
                 lines.append(f"derive {s} {src}:{xi.hex()}"); meta.append((s, xi, src, 'derive', i))
             lines.append(f"pk_from {s} gen:{xi.hex()}"); meta.append((s, xi, 'gen', 'pk', i))
